@@ -130,6 +130,20 @@ Fixpoint core_levels (fuel : nat) (width level : N) (source : list N) : res (lis
       Ok (bv :: rest)
   end.
 
+(* the ideal content of the levels (what the bitvectors built above must store): the bit column of every
+   level. Used to state the proofs; not part of the executable path *)
+Fixpoint level_columns (fuel : nat) (width level : N) (source : list N) : list (list bool) :=
+  match fuel with
+  | O => []
+  | S k =>
+      let bitv := bit_value width level in
+      map (fun v => has_bit v bitv) source
+      :: level_columns k width (level + 1)
+           (filter (fun v => negb (has_bit v bitv)) source ++ filter (fun v => has_bit v bitv) source)
+  end.
+Definition wm_columns (V : list N) : list (list bool) :=
+  let width := bit_len (list_max V) in level_columns (N.to_nat width) width 0 V.
+
 (* init_support: enable_rank, enable_select, enable_select_zero (enable_pred_succ then finds both enabled) *)
 Fixpoint init_support (sp : selpath) (m : mode) (ls : list bitvec) : res (list bitvec) :=
   match ls with
